@@ -54,7 +54,8 @@ def time_average(
     time_interval = snapshots.snapshots[1].timestep - \
         snapshots.snapshots[0].timestep
     time_interval *= dt
-    time_nsnapshot = int(time_period / time_interval)
+    # tolerant floor: 0.6 / (100 * 0.002) evaluates to 2.9999999999999996
+    time_nsnapshot = int(np.floor(time_period / time_interval + 1e-9))
     # save the time averaged results
     results = np.zeros((
         snapshots.nsnapshots - time_nsnapshot,
